@@ -20,3 +20,13 @@ def drive(strategy, n, seed, body, shrink=False):
         body(x)
 
     _t()
+
+
+def rng():
+    """Strategy for a random.Random whose seed is drawn by Hypothesis.
+
+    `use_true_random=True` gives the usual uniform distributions (the Hypothesis-generated
+    variant is heavily biased towards 0 and repeated values, which starves the interesting
+    classes); the stream is still a pure function of the Hypothesis seed.
+    """
+    return st.randoms(use_true_random=True)
